@@ -27,6 +27,10 @@ def main():
         # an internal error of the machinery is not a verdict about the property
         print(f"ERROR: check {a.prop} crashed (machinery error, no verdict)", flush=True)
         rc = 2
+    finally:
+        # the per-run scratch directory (case files, private .vo) never outlives the run, whatever happened
+        import shutil
+        shutil.rmtree(ctx.work, ignore_errors=True)
     sys.exit(rc)
 
 
